@@ -18,7 +18,17 @@ use driver::{CheckPlan, ReplayFile};
 use engine::Engine;
 
 fn engines() -> Vec<Arc<dyn Engine>> {
-    vec![Arc::new(e1::engine::E1), Arc::new(e3::budget::Budget), Arc::new(e2::E2)]
+    vec![
+        Arc::new(e1::engine::E1),
+        Arc::new(e3::budget::Budget),
+        Arc::new(e2::E2),
+        Arc::new(e3::kv::Kv),
+        Arc::new(e3::detector::Detector),
+        Arc::new(e3::catchup::Catchup),
+        Arc::new(e3::pairs::Pairs),
+        Arc::new(e3::wire::Wire),
+        Arc::new(e3::selection::Selection),
+    ]
 }
 
 fn env_u64(k: &str) -> Option<u64> {
@@ -31,26 +41,30 @@ fn plan_for(prop: &str, tier: &str) -> Vec<(Arc<dyn Engine>, u64)> {
     let thorough = tier == "thorough";
     let scale = env_u64("VERIF_RUNS_PCT").unwrap_or(100);
     let mut v: Vec<(Arc<dyn Engine>, u64)> = Vec::new();
-    let e1_runs: u64 = match prop {
-        "C19" => 0,
-        _ => {
-            if thorough {
-                400_000
-            } else {
-                12_000
-            }
+    let mut add = |e: Arc<dyn Engine>, quick: u64, thorough_n: u64| {
+        let n = if thorough { thorough_n } else { quick };
+        if n > 0 {
+            v.push((e, (n * scale / 100).max(1)));
         }
     };
-    if prop == "C19" || prop == "C17" {
-        let n = if thorough { 300_000 } else { 8_000 };
-        v.push((Arc::new(e2::E2), (n * scale / 100).max(1)));
+    // directed single-node engines first (cheap, sharp), then the cluster simulator
+    match prop {
+        "C04" => add(Arc::new(e3::pairs::Pairs), 40_000, 2_000_000),
+        "C06" => add(Arc::new(e3::kv::Kv), 60_000, 3_000_000),
+        "C07" => add(Arc::new(e3::budget::Budget), 20_000, 600_000),
+        "C08" => add(Arc::new(e3::wire::Wire), 20_000, 800_000),
+        "C10" | "C11" => add(Arc::new(e3::detector::Detector), 20_000, 1_000_000),
+        "C14" | "C20" => add(Arc::new(e3::pairs::Pairs), 40_000, 2_000_000),
+        "C17" => {
+            add(Arc::new(e3::selection::Selection), 4_000, 200_000);
+            add(Arc::new(e2::E2), 4_000, 150_000);
+        }
+        "C18" => add(Arc::new(e3::catchup::Catchup), 60_000, 3_000_000),
+        "C19" => add(Arc::new(e2::E2), 8_000, 300_000),
+        _ => {}
     }
-    if prop == "C07" {
-        let n = if thorough { 600_000 } else { 20_000 };
-        v.push((Arc::new(e3::budget::Budget), (n * scale / 100).max(1)));
-    }
-    if e1_runs > 0 {
-        v.push((Arc::new(e1::engine::E1), (e1_runs * scale / 100).max(1)));
+    if prop != "C19" {
+        add(Arc::new(e1::engine::E1), 12_000, 400_000);
     }
     v
 }
